@@ -2,19 +2,26 @@ CHECK = {
     "id": "C07",
     "level": "model_checking",
     "engine": "E1",
-    "technique": "stateless model checking of the implementation: deviation-bounded exhaustive exploration of thread schedules of the real hydro task loop, monitor built from the task tables the code constructs",
+    "technique": "stateless model checking of the implementation (deviation-bounded schedule exploration of the real hydro loop) plus explicit-state search of a task-level TAKE/STOP model generated from the real task tables, every model transition replayed on the real Task objects",
     "level_text": "Every thread schedule with at most 1 deviation (2 on selected layouts) of the real hydro loop of "
                   "TaskBasedRadiationHydrodynamicsSimulation::do_simulation is executed for 10 layouts/periodicity "
                   "combinations (including periodic axes with one subgrid), 2-3 threads, 1-2 consecutive steps. A monitor "
                   "built from the task tables the real code constructed checks on every execution: each task starts "
                   "exactly once per step, only after all tasks that list it as child have finished, no two running tasks "
                   "touch the same subgrid (the touched set comes from the task's subgrid/neighbour fields, not from its "
-                  "locks), and every step ends (deadlock/livelock/horizon are violations).",
+                  "locks), and every step ends (deadlock/livelock/horizon are violations). Second part: the task tables the real "
+                  "make_hydro_tasks/set_dependencies/reset_hydro_tasks build are dumped for every layout up to 3^3 (thorough 4^3) x 8 "
+                  "periodicities and checked (counter = incoming edges, locks = touched subgrids in index order and never twice, every "
+                  "face handled by exactly one gradient and one flux task, acyclic, stage order along data flow); a TAKE/STOP model "
+                  "instantiated from them is searched exhaustively for 1-3 workers on all layouts with <= 2 subgrids (state-capped "
+                  "beyond) for exclusivity, deadlock freedom and reachability of the end from every state, and each model transition "
+                  "is replayed on the real Task objects (lock_dependency, parent counters) to bind the model to the code.",
     "level_note": "Code between two hooked synchronisation points is atomic (a scheduling point is placed inside every "
                   "running task so that overlap is observable); sequential consistency; 2-3 threads; layouts up to 2x2x1 "
                   "and 3x1x1 with 2x2x2 cells per subgrid.",
     "quick_deadline": 100,
     "thorough_deadline": 1200,
-    "parts": [{"name": "hydro-loop", "bin": "c07_hydroloop"}],
+    "parts": [{"name": "hydro-loop", "bin": "c07_hydroloop", "share": 2.0},
+              {"name": "task-model", "bin": "c07_taskmodel", "share": 1.0}],
     "assumptions": [],
 }
